@@ -68,6 +68,10 @@ def call(w, e, st):
             flat_args, ok = [], True
             for node, v in zip(e.args, args):
                 if isinstance(node, ast.Starred):
+                    if isinstance(v, tuple) and len(v) == 2 and v[0] == "global" and v[1].startswith("const:"):
+                        lit0 = w.eng.const_literal(v[1][6:])
+                        if lit0 is not None and len(lit0) == 4 and lit0[0] == "lit" and lit0[1] == "tuple":
+                            v = lit0  # *ARGS with a module-level tuple
                     if isinstance(v, tuple) and len(v) == 4 and v[0] == "lit" and v[1] in ("tuple", "list"):
                         flat_args.extend(v[2])
                     else:
